@@ -93,6 +93,12 @@ func collectIndexTerms(n *sx, into map[string]bool) {
 		idx := n.kids[2].String()
 		if !boundRe.MatchString(idx) {
 			into[idx] = true
+			// slices with a symbolic offset are indexed as (bvadd off j): the summands are candidates for j
+			if n.kids[2].head() == "bvadd" {
+				for _, k := range n.kids[2].kids[1:] {
+					into[k.String()] = true
+				}
+			}
 		}
 	}
 	for _, k := range n.kids {
